@@ -136,8 +136,16 @@ func (bw *BatchedWriter) Enqueue(object BatchWriteObject) {
 		}
 	})
 
+	// Count the object as scheduled *before* checking the running flag. The writer only exits
+	// after it has seen running == false and then scheduledCount == 0, so either it sees this
+	// increment and stays alive until the object was received and written, or the running flag
+	// is already cleared when it is checked here and the object is not touched at all.
+	bw.scheduledCount.Add(1)
+
 	// abort if the BatchWriter has been stopped
 	if !bw.running.Load() {
+		bw.scheduledCount.Add(-1)
+
 		return
 	}
 
@@ -145,11 +153,12 @@ func (bw *BatchedWriter) Enqueue(object BatchWriteObject) {
 
 	// abort if the very same object has been queued already
 	if object.BatchWriteScheduled() {
+		bw.scheduledCount.Add(-1)
+
 		return
 	}
 
 	// queue object
-	bw.scheduledCount.Add(1)
 	verifYield("bw.enqueue.beforeSend")
 	bw.batchQueue <- object
 }
